@@ -424,6 +424,12 @@ class World:
                     kw["inexact"] = True
         return self._derive(op, lambda: f(self.convs[i - 1], dict(pairs)), [i], extra, **kw)
 
+    def discover(self, i, uris, extra=()):
+        """curies.discover(uris, converter=convs[i]): the sixth derivation of C10 -- only the frame is judged here
+        (what discover returns is C19's business)."""
+        op = {"k": "discover", "i": i, "uris": [self.I(u) for u in uris]}
+        return self._derive(op, lambda: curies.discover(list(uris), converter=self.convs[i - 1]), [i], extra)
+
     def load(self, loader, data, delim=":", strict=True, extra=(), via="obj"):
         I = self.I
         op = {"k": "load", "loader": loader, "delim": I(delim), "strict": strict}
